@@ -1,4 +1,5 @@
 import TarsModel.Proofs.SchemaFuel
+import TarsModel.Proofs.SchemaRT4
 
 /-!
 # Round trip at the API level: `WriteTo`/`ReadFrom` and `WriteBlock`/`ReadBlock`
@@ -24,7 +25,26 @@ theorem structTy_ok {env : Env} {rk : String → Nat} (hE : EnvWF env rk) {S : S
   simp only [TyOK]
   exact ⟨⟨fs, hfs⟩, by have := (hE S fs hfs).1; omega⟩
 
-/-- `ReadFrom` after `WriteTo`, with an abstract fuel bound -/
+/-- the Go zero value of a struct is an admissible target -/
+theorem freshStruct_targetOK {env : Env} {rk : String → Nat} (hE : EnvWF env rk) {S : String}
+    {fs : List Field} (hfs : env.find S = some fs) : TargetOK env S (freshStruct env S) :=
+  zeroOf_ready hE (.struct S) (structTy_ok hE hfs)
+
+/-- `ReadFrom` after `WriteTo` into ANY admissible target, with an abstract fuel bound -/
+theorem decMembers_target_rt (env : Env) (rk : String → Nat) (hE : EnvWF env rk) (S : String)
+    (fs : List Field) (vs os : List Val) (fuel : Nat) (r : Reader) (t : Bytes)
+    (hfs : env.find S = some fs) (hwt : WTm env fs vs) (hos : ReadyMembers env fs os)
+    (ht : Terminated t) (hfuel : needElems vs ≤ fuel) (h : r.rest = encMembers env fs vs ++ t) :
+    decMembers env fuel fs (resetDefault env fuel fs os) r
+      = (.ok (normMembers env fs vs), r.adv (encMembers env fs vs).length) := by
+  obtain ⟨hrk, hasc, hfok⟩ := hE S fs hfs
+  obtain ⟨f, rfl⟩ : ∃ f, fuel = f + 1 := ⟨fuel - 1, by have := needElems_pos vs; omega⟩
+  have htys : ∀ g ∈ fs, TyOK env rk (env.length + 1) g.ty :=
+    fun g hg => TyOK.mono (by omega) (hfok g hg).2.1
+  exact decMembers_rt env rk (rk S) hrk vs (fun v _ => rt_all env rk hE v) fs (f+1) _ r t hfok hasc
+    hwt (resetDefault_oldOK hE f fs os htys hos) ht hfuel h
+
+/-- `ReadFrom` after `WriteTo` into a fresh target, with an abstract fuel bound -/
 theorem decMembers_fresh_rt (env : Env) (rk : String → Nat) (hE : EnvWF env rk) (S : String)
     (fs : List Field) (vs : List Val) (fuel : Nat) (r : Reader) (t : Bytes)
     (hfs : env.find S = some fs) (hwt : WTm env fs vs) (ht : Terminated t)
@@ -32,38 +52,39 @@ theorem decMembers_fresh_rt (env : Env) (rk : String → Nat) (hE : EnvWF env rk
     ∃ os, freshStruct env S = .struct os ∧
       decMembers env fuel fs (resetDefault env fuel fs os) r
         = (.ok (normMembers env fs vs), r.adv (encMembers env fs vs).length) := by
-  have hready := zeroOf_ready hE (.struct S) (structTy_ok hE hfs)
-  obtain ⟨os, hos, hrm⟩ := ready_struct hfs hready
-  refine ⟨os, hos, ?_⟩
-  obtain ⟨hrk, hasc, hfok⟩ := hE S fs hfs
-  obtain ⟨f, rfl⟩ : ∃ f, fuel = f + 1 := ⟨fuel - 1, by have := needElems_pos vs; omega⟩
-  exact decMembers_rt env rk (rk S) hrk vs (fun v _ => rt_all env rk hE v) fs (f+1) _ r t hfok hasc
-    hwt (resetDefault_oldOK env f fs os hrm) ht hfuel h
+  obtain ⟨os, hos, hrm⟩ := ready_struct hfs (freshStruct_targetOK hE hfs)
+  exact ⟨os, hos, decMembers_target_rt env rk hE S fs vs os fuel r t hfs hwt hrm ht hfuel h⟩
+
+/-- `ReadFrom` after `WriteTo` into any admissible (possibly reused, stale) target -/
+theorem decStruct_rt_target (env : Env) (rk : String → Nat) (S : String) (v old : Val) (r : Reader)
+    (t : Bytes) (hW : WellTyped env rk S v) (ho : TargetOK env S old) (ht : Terminated t)
+    (h : r.rest = encStruct env S v ++ t) :
+    decStruct env S old r = (.ok (norm env S v), r.adv (encStruct env S v).length) := by
+  obtain ⟨hE, hwt⟩ := hW
+  obtain ⟨fs, vs, hfs, rfl, hwm⟩ := WT_struct_inv hwt
+  simp only [encStruct, hfs] at h ⊢
+  have hfuel := needElems_le_decFuel env S fs vs r t hfs hwm h
+  obtain ⟨os, rfl, hrm⟩ := ready_struct hfs ho
+  have hdec := decMembers_target_rt env rk hE S fs vs os (decFuel env r) r t hfs hwm hrm ht hfuel h
+  unfold decStruct
+  simp only [hfs, hdec, norm, normVar]
 
 theorem decStruct_rt (env : Env) (rk : String → Nat) (S : String) (v : Val) (r : Reader) (t : Bytes)
     (hW : WellTyped env rk S v) (ht : Terminated t) (h : r.rest = encStruct env S v ++ t) :
     decStruct env S (freshStruct env S) r
       = (.ok (norm env S v), r.adv (encStruct env S v).length) := by
-  obtain ⟨hE, hwt⟩ := hW
-  obtain ⟨fs, vs, hfs, rfl, hwm⟩ := WT_struct_inv hwt
-  simp only [encStruct, hfs] at h ⊢
-  have hfuel := needElems_le_decFuel env S fs vs r t hfs hwm h
-  obtain ⟨os, hos, hdec⟩ := decMembers_fresh_rt env rk hE S fs vs (decFuel env r) r t hfs hwm ht
-    hfuel h
-  unfold decStruct
-  rw [hos]
-  simp only [hfs, hdec, norm, normVar]
+  obtain ⟨fs, _, hfs, _, _⟩ := WT_struct_inv hW.2
+  exact decStruct_rt_target env rk S v _ r t hW (freshStruct_targetOK hW.1 hfs) ht h
 
-/-- `ReadBlock` after `WriteBlock`, any tag, required or optional, any previous target that is a
-    zero/default struct, arbitrary following bytes -/
-theorem block_rt (env : Env) (rk : String → Nat) (S : String) (v : Val) (tag : Nat) (req : Bool)
-    (r : Reader) (t : Bytes) (hW : WellTyped env rk S v) (htag : tag < 256)
-    (h : r.rest = encVar env tag req (.struct S) none v ++ t) :
-    decVar env (decFuel env r) tag req (.struct S) (freshStruct env S) r
+/-- `ReadBlock` after `WriteBlock`, any tag, required or optional, any admissible previous target,
+    arbitrary following bytes -/
+theorem block_rt_target (env : Env) (rk : String → Nat) (S : String) (v old : Val) (tag : Nat)
+    (req : Bool) (r : Reader) (t : Bytes) (hW : WellTyped env rk S v) (ho : TargetOK env S old)
+    (htag : tag < 256) (h : r.rest = encVar env tag req (.struct S) none v ++ t) :
+    decVar env (decFuel env r) tag req (.struct S) old r
       = (.ok (norm env S v), r.adv (encVar env tag req (.struct S) none v).length) := by
   obtain ⟨hE, hwt⟩ := hW
   obtain ⟨fs, vs, hfs, rfl, hwm⟩ := WT_struct_inv hwt
-  have hready := zeroOf_ready hE (.struct S) (structTy_ok hE hfs)
   have hb := (fuelOK_all env (.struct vs) tag req (.struct S) none hwt).2
   have hne : 0 < (encVar env tag req (.struct S) none (.struct vs)).length := by
     rw [encVar]; simp only [hfs]
@@ -81,8 +102,17 @@ theorem block_rt (env : Env) (rk : String → Nat) (S : String) (v : Val) (tag :
     rw [Nat.mul_add]
     omega
   have := decVar_struct_rt env rk hE vs (fun v _ => rt_all env rk hE v) S (decFuel env r) tag req
-    (freshStruct env S) r t htag hwt hready hfuel h
+    old r t htag hwt ho hfuel h
   rw [this]
   simp only [norm, normVar]
+
+/-- `ReadBlock` after `WriteBlock` into a fresh target -/
+theorem block_rt (env : Env) (rk : String → Nat) (S : String) (v : Val) (tag : Nat) (req : Bool)
+    (r : Reader) (t : Bytes) (hW : WellTyped env rk S v) (htag : tag < 256)
+    (h : r.rest = encVar env tag req (.struct S) none v ++ t) :
+    decVar env (decFuel env r) tag req (.struct S) (freshStruct env S) r
+      = (.ok (norm env S v), r.adv (encVar env tag req (.struct S) none v).length) := by
+  obtain ⟨fs, _, hfs, _, _⟩ := WT_struct_inv hW.2
+  exact block_rt_target env rk S v _ tag req r t hW (freshStruct_targetOK hW.1 hfs) htag h
 
 end Tars
